@@ -8,7 +8,9 @@
 
    FULL statements that are NOT theorems, with their refutations below:
      C03_lockset       : every annotated access is protected by a lock all conflicting accesses hold
-                         (refuted today: error paths of mem.File read fileData.name unlocked)
+                         (today: true up to happens-before, C03_lockset_hb; the pure common-lock form
+                         fails only for the sort of a listing; refuted before cbef301: error paths of
+                         mem.File read fileData.name unlocked)
      C03_quiescent_wf  : forall well-typed progs sched, quiescent -> consistent
                          (today: reduced to the sequential bodies, _partial; refuted before ce143d9)
    C03_no_deadlock / C03_no_unlock_error / C03_panic_keeps_locks_balanced hold for TODAY's table;
@@ -19,48 +21,33 @@ From AF Require Import Lib.Bytes Lib.Path Lib.Ops Gen.Consts Model.MemFile Model
   Model.ConcStatic Gen.ConcTab Proofs.ConcProof.
 
 (* ================================================================== lockset *)
-(* Every pair of conflicting annotated accesses of sections that well-typed programs can run is
-   protected by a common lock (the accessed FileData's own mutex on both sides, or mu held by both
-   with at least one writer) — EXCEPT the two families named by cc_exc_errpath / cc_exc_sort. *)
+(* TODAY'S TABLE (after commits cbef301 and 2d6ed35).  Every pair of conflicting annotated accesses
+   of any two sections — well-typed or not, MemMapFs.List included — is ordered: both sides hold the
+   accessed FileData's own mutex, or both hold mu with at least one writer, or one is a read under
+   the LISTING directory's mutex and the other Rename's write made while the object is listed
+   nowhere (the unregister before it and the register after it synchronise on that mutex). *)
+Theorem C03_lockset_hb :
+  forall a1 a2 x y, In x (cc_acc a1) -> In y (cc_acc a2) ->
+    cc_conflict x y = true -> cc_protected_hb a1 x a2 y = true.
+Proof.
+  intros a1 a2 x y. apply (cc_table_dec_spec _ _ conc_lockset_hb_table); apply cc_all_aids_complete.
+Qed.
+Print Assumptions C03_lockset_hb.
+
+(* the pure lockset criterion (a COMMON lock) holds for every pair except one family *)
 Theorem C03_lockset_partial :
-  forall a1 a2 x y, In a1 cc_all_aids -> In a2 cc_all_aids -> In x (cc_acc a1) -> In y (cc_acc a2) ->
-    cc_conflict x y = true -> ac_wt x = true -> ac_wt y = true ->
-    cc_protected a1 x a2 y || cc_exc_errpath a1 x a2 y || cc_exc_sort a1 x a2 y = true.
-Proof. exact (cc_table_dec_spec _ conc_lockset_table). Qed.
+  forall a1 a2 x y, In x (cc_acc a1) -> In y (cc_acc a2) -> cc_conflict x y = true ->
+    cc_protected a1 x a2 y || cc_exc_sort a1 x a2 y = true.
+Proof.
+  intros a1 a2 x y. apply (cc_table_dec_spec _ _ conc_lockset_table); apply cc_all_aids_complete.
+Qed.
 Print Assumptions C03_lockset_partial.
 
-(* With the ownership-transfer refinement (a read of child.name under the LISTING directory's mutex
-   is ordered with Rename's write, which happens while the child is listed nowhere) only the
-   error-path family remains. *)
-Theorem C03_lockset_hb_partial :
-  forall a1 a2 x y, In a1 cc_all_aids -> In a2 cc_all_aids -> In x (cc_acc a1) -> In y (cc_acc a2) ->
-    cc_conflict x y = true -> ac_wt x = true -> ac_wt y = true ->
-    cc_protected_hb a1 x a2 y || cc_exc_errpath a1 x a2 y = true.
-Proof. exact (cc_table_dec_spec _ conc_lockset_hb_table). Qed.
-Print Assumptions C03_lockset_hb_partial.
-
-(* every section except List() is in the table the two theorems range over *)
-Theorem C03_lockset_table_complete : forall a, a <> AXList -> In a cc_all_aids.
-Proof. exact cc_all_aids_complete. Qed.
-Print Assumptions C03_lockset_table_complete.
-
-(* REFUTED (a real data race, reported by the race detector on well-typed programs):
-   File.Write / WriteAt / ReadAt / Seek / Truncate build their *os.PathError from f.fileData.name
-   WITHOUT any lock (read-only handle, negative offset, negative position) while
-   Rename -> mem.ChangeFileName writes name under the file's mutex and mu.  Witness pair of sections:
-   (AHPre HkWrite, read name) vs (ARename, write name). *)
-Theorem C03_lockset_refuted_name_error_paths :
-  exists x y, In x (cc_acc (AHPre HkWrite)) /\ In y (cc_acc ARename) /\
-    cc_conflict x y = true /\ ac_wt x = true /\ ac_wt y = true /\
-    cc_protected_hb (AHPre HkWrite) x ARename y = false.
-Proof. exists (rd FName), (mkAcc FName true true false true true). vm_compute. tauto. Qed.
-Print Assumptions C03_lockset_refuted_name_error_paths.
-
-(* REFUTED as a lockset statement, but ordered by happens-before: File.Readdir -> DirMap.Files()
+(* ... REFUTED as a lockset statement, but ordered by happens-before: File.Readdir -> DirMap.Files()
    sorts the children by f.name holding only the DIRECTORY's mutex; ChangeFileName writes name under
    the CHILD's mutex and mu.  No common lock; yet Rename unregisters the child from its directory
    (under that directory's mutex) before the write and registers it (under the new directory's
-   mutex) after it, so the detector cannot report it. *)
+   mutex) after it, so the detector cannot report it — and never did. *)
 Theorem C03_lockset_refuted_readdir_sort :
   exists x y, In x (cc_acc (AHBody HkReaddir)) /\ In y (cc_acc ARename) /\
     cc_conflict x y = true /\ ac_wt x = true /\ ac_wt y = true /\
@@ -69,13 +56,42 @@ Theorem C03_lockset_refuted_readdir_sort :
 Proof. exists (mkAcc FName false false true false true), (mkAcc FName true true false true true). vm_compute. tauto. Qed.
 Print Assumptions C03_lockset_refuted_readdir_sort.
 
-(* REFUTED only outside the property's class: File.Readdir reads fileData.dir (and, on a FILE
-   handle, fileData.name) unlocked; mem.InitializeDir writes dir when a FILE is used as a parent. *)
-Theorem C03_lockset_refuted_dirflag_illtyped :
-  exists x y, In x (cc_acc (AHPre HkReaddir)) /\ In y (cc_acc ACreate) /\
+(* the error paths of mem.File (read-only handle, negative offset, negative position) and Readdir's
+   directory test now read name / dir through fileData.Name() / Info().IsDir(): under the file's mutex *)
+Theorem C03_error_paths_read_name_under_lock :
+  forall k x, In x (cc_acc (AHPre k)) -> ac_own x = true.
+Proof. intros k x. destruct k; vm_compute; intuition (subst; reflexivity). Qed.
+Print Assumptions C03_error_paths_read_name_under_lock.
+
+(* BEFORE cbef301 (annotations cc_acc_before_cbef301): for well-typed accesses the same statement
+   held up to the error-path family ... *)
+Theorem C03_lockset_hb_before_cbef301_partial :
+  forall a1 a2 x y, In x (cc_acc_before_cbef301 a1) -> In y (cc_acc_before_cbef301 a2) ->
+    cc_conflict x y = true -> ac_wt x = true -> ac_wt y = true ->
+    cc_protected_hb a1 x a2 y || cc_exc_errpath a1 x a2 y = true.
+Proof.
+  intros a1 a2 x y. apply (cc_table_dec_spec_wt _ _ conc_lockset_hb_table_before_cbef301); apply cc_all_aids_complete.
+Qed.
+Print Assumptions C03_lockset_hb_before_cbef301_partial.
+
+(* ... which was a real data race, reported by the race detector on well-typed programs
+   (signature race:mem.File.Write|mem.ChangeFileName and four more): File.Write / WriteAt / ReadAt /
+   Seek / Truncate built their *os.PathError from f.fileData.name WITHOUT any lock while
+   Rename -> mem.ChangeFileName writes name under the file's mutex and mu. *)
+Theorem C03_lockset_refuted_before_cbef301_name_error_paths :
+  exists x y, In x (cc_acc_before_cbef301 (AHPre HkWrite)) /\ In y (cc_acc_before_cbef301 ARename) /\
+    cc_conflict x y = true /\ ac_wt x = true /\ ac_wt y = true /\
+    cc_protected_hb (AHPre HkWrite) x ARename y = false.
+Proof. exists (rd FName), (mkAcc FName true true false true true). vm_compute. tauto. Qed.
+Print Assumptions C03_lockset_refuted_before_cbef301_name_error_paths.
+
+(* ... and, outside the property's class, File.Readdir read fileData.dir unlocked while
+   mem.InitializeDir writes it when a FILE is used as a parent *)
+Theorem C03_lockset_refuted_before_cbef301_dirflag_illtyped :
+  exists x y, In x (cc_acc_before_cbef301 (AHPre HkReaddir)) /\ In y (cc_acc_before_cbef301 ACreate) /\
     cc_conflict x y = true /\ cc_protected_hb (AHPre HkReaddir) x ACreate y = false /\ ac_wt y = false.
 Proof. exists (rd FDirFlag), (mkAcc FDirFlag true true false false false). vm_compute. tauto. Qed.
-Print Assumptions C03_lockset_refuted_dirflag_illtyped.
+Print Assumptions C03_lockset_refuted_before_cbef301_dirflag_illtyped.
 
 (* the lock context the annotations assume IS the one every execution has: whenever a thread is
    about to run section a, it holds exactly cc_ctx a (mu mode, a file mutex or not, pending defers) *)
@@ -279,6 +295,29 @@ Theorem C03_source_table_panic_sites :
                 "MemMapFs.unRegisterWithParent"]%string.
 Proof. vm_compute. reflexivity. Qed.
 Print Assumptions C03_source_table_panic_sites.
+
+(* which functions release a lock by a plain, not deferred, unlock (a panic that is no token of the
+   table — a nil dereference — between the lock and that unlock would leave it held): of a FILE mutex
+   only one-field accessors of package mem, none in memmap.go; in particular the PARENT's mutex taken
+   by registerWithParent / unRegisterWithParent is released by defer, also when AddToMemDir /
+   RemoveFromMemDir panic (commit 2d6ed35) *)
+Theorem C03_source_table_plain_unlocks :
+  cc_tab_plain_unlock LkF cc_locktab_src =
+    map cc_bytes ["mem.ChangeFileName"; "mem.File.Close"; "mem.File.Open"; "mem.File.Readdir"; "mem.File.Seek";
+                  "mem.FileInfo.Name"; "mem.SetGID"; "mem.SetModTime"; "mem.SetMode"; "mem.SetUID"]%string /\
+  cc_tab_plain_unlock LkW cc_locktab_src = map cc_bytes ["MemMapFs.Create"; "MemMapFs.Mkdir"]%string /\
+  cc_tab_plain_unlock LkR cc_locktab_src = map cc_bytes ["MemMapFs.Chown"; "MemMapFs.Mkdir"; "MemMapFs.open"]%string.
+Proof. vm_compute. auto. Qed.
+Print Assumptions C03_source_table_plain_unlocks.
+
+(* REFUTED before 2d6ed35: the two functions held the parent's mutex across code that dereferences
+   nil when the parent is a file (observed, outside the class: panic:Remove followed by
+   deadlock on that mutex, with one goroutine) *)
+Theorem C03_source_table_parent_mutex_refuted_before_2d6ed35 :
+  In (cc_bytes "MemMapFs.registerWithParent"%string) (cc_tab_plain_unlock LkF cc_locktab_before_2d6ed35) /\
+  In (cc_bytes "MemMapFs.unRegisterWithParent"%string) (cc_tab_plain_unlock LkF cc_locktab_before_2d6ed35).
+Proof. vm_compute. tauto. Qed.
+Print Assumptions C03_source_table_parent_mutex_refuted_before_2d6ed35.
 
 (* REFUTED before ce143d9: with RemoveAll's row of that tree the check fails exactly there (the
    log.Panic of unRegisterWithParent is reached with mu write-locked and no deferred unlock) *)
